@@ -93,6 +93,11 @@ CHECKS["C05"] = dict(
     note=COMMON_NOTE + "Motions, re-emission and margins are harness-side numerics (numpy); TLC decides equality and the "
          "margin rule. BPh/BR lists are compared as sets.")
 
+import sys
+sys.path.insert(0, os.path.dirname(os.path.abspath(__file__)))
+import manifest_entries  # noqa: E402
+CHECKS.update(manifest_entries.ENTRIES)
+
 PENDING = {}   # property id -> reason (kept honest while a check is being built)
 
 
